@@ -6,7 +6,8 @@ C16 / `tail_pattern_sound`, layer 3f: tail position of STATEMENTS.
 `CALL n sp; zop zargs` (`RETURN 1` or `POP`) at the very end of its code:
 
 * `return e` / `e;` with the call in tail position of `e` (`TailE`);
-* `if c { pre…; last }` (no else) with `last` such a statement — the `stmt-in-if` form;
+* `if [init;] c { pre…; last }` (no else) with `last` such a statement — the `stmt-in-if` form (the optional init
+  statement must pass);
 * `if c { … } else st` with `st` such a statement (`else { … }`, `else if …`);
 * `{ pre…; last }`.
 
@@ -64,27 +65,38 @@ theorem block_tailEnd {n sp zop : Nat} {zargs : List Nat} (pre : List Stmt) (las
       exact ht0.suffix hlm (fun L₁ F₁ hi => (all_spec (d' + 1)).ss post smid sb L₁ F₁ hpostc hi hszp)
   exact TailEnd.forked hinv (TailEnd.prepend hstm (hlm.trans hl.symm) htm hbm htail)
 
+/-- the optional init statement of an `if` -/
+theorem optS_thru {d : Nat} (ini : Option Stmt) (hini : ∀ st ∈ ini, passes st = true) {s s' : CState}
+    {L : List Instr} {F : List Nat} (h : compOS d ini s = .ok ((), s')) (hinv : Inv s L F)
+    (hsz : szOS d ini < 2 ^ 30) : SResT s s' L F (szOS d ini) := by
+  cases ini with
+  | some st => exact (thru_all d).1 st (hini st rfl) s s' L F h hinv hsz
+  | none =>
+    have e : s' = s := (Prod.mk.inj (pure_ok h)).2
+    subst e
+    exact SResT.nil hinv
+
 theorem jmpf_ne_ret : opJumpFalsy ≠ opReturn := by decide
 
 /-- `if c { pre…; last }` without `else` (the `stmt-in-if` form when `last` is a call statement) -/
-theorem if_tailEnd {n sp zop : Nat} {zargs : List Nat} (c : Expr) (pre : List Stmt) (last : Stmt) (post : List Stmt)
+theorem if_tailEnd {n sp zop : Nat} {zargs : List Nat} (ini : Option Stmt) (hini : ∀ st ∈ ini, passes st = true)
+    (c : Expr) (pre : List Stmt) (last : Stmt) (post : List Stmt)
     (hpost : post = [] ∨ zop = opReturn)
     (hpre : ∀ st ∈ pre, passes st = true) (hlast : LastOK last n sp zop zargs)
     (d : Nat) (s s' : CState) (L : List Instr) (F : List Nat)
-    (h : compileStmt (d + 1) (.ifs none c (pre ++ last :: post) none) s = .ok ((), s')) (hinv : Inv s L F)
-    (hsz : szS (d + 1) (.ifs none c (pre ++ last :: post) none) < 2 ^ 30) (hl : s.loops = []) :
+    (h : compileStmt (d + 1) (.ifs ini c (pre ++ last :: post) none) s = .ok ((), s')) (hinv : Inv s L F)
+    (hsz : szS (d + 1) (.ifs ini c (pre ++ last :: post) none) < 2 ^ 30) (hl : s.loops = []) :
     TailEnd s s' L F n sp zop zargs := by
   have hjf : isJump opJumpFalsy = true := rfl
   rw [compile_ifs] at h
   rw [szS_ifs] at hsz
+  have hszi : szOS d ini < 2 ^ 30 := by omega
   simp only [szOS] at hsz
   obtain ⟨_, s0, h0, hA⟩ := bind_ok h
   have e0 : s0 = forkS true s := by
     rw [fork_run] at h0; injection h0 with h0; exact (Prod.mk.inj h0).2.symm
   subst e0
   obtain ⟨_, s0', h0', hB⟩ := bind_ok hA
-  have e0' : s0' = forkS true s := (Prod.mk.inj (pure_ok h0')).2
-  subst e0'
   obtain ⟨_, s1, h1, hC⟩ := bind_ok hB
   obtain ⟨jp, s2, h2, hD⟩ := bind_ok hC
   obtain ⟨_, s3, h3, hE⟩ := bind_ok hD
@@ -92,11 +104,17 @@ theorem if_tailEnd {n sp zop : Nat} {zargs : List Nat} (c : Expr) (pre : List St
   have e5 : s' = unforkS s4 := by
     rw [unfork_run] at hF; injection hF with hF; exact (Prod.mk.inj hF).2.symm
   subst e5
-  clear h hA hB hC hD hE hF h0 h0'
+  clear h hA hB hC hD hE hF h0
   refine TailEnd.forked hinv ?_
-  have hinv0 := hinv.fork
-  have hlf : (forkS true s).loops = [] := hl
-  generalize forkS true s = sf at *
+  obtain ⟨Bi, Fi, bsi, csi, oi, ti⟩ := optS_thru ini hini h0' hinv.fork hszi
+  obtain ⟨ebs, ecs⟩ := oi.nopend hl
+  subst ebs; subst ecs
+  have hli : s0'.loops = [] := by rw [oi.loops]; exact addPend_eq_nil hl
+  refine TailEnd.prepend oi.step (hli.trans hl.symm) ti oi.blk ?_
+  suffices core : ∀ (sf : CState) (L : List Instr) (F : List Nat), Inv sf L F → sf.loops = [] →
+      compileExpr d c sf = .ok ((), s1) → TailEnd sf s4 L F n sp zop zargs from
+    core s0' (L ++ Bi) Fi oi.inv hli h1
+  intro sf L F hinv0 hlf h1
   -- condition
   obtain ⟨Bc, F₁, o1, hb1⟩ := (all_spec d).e c sf s1 L F h1 hinv0 (by omega)
   have e2 := emit_ok h2
@@ -180,24 +198,24 @@ theorem if_tailEnd {n sp zop : Nat} {zargs : List Nat} (c : Expr) (pre : List St
     omega
 
 /-- `if c { … } else st` with the tail call at the end of `st` (`else { … }`, `else if …`) -/
-theorem ifelse_tailEnd {n sp zop : Nat} {zargs : List Nat} (c : Expr) (body : List Stmt) (st : Stmt)
+theorem ifelse_tailEnd {n sp zop : Nat} {zargs : List Nat} (ini : Option Stmt)
+    (hini : ∀ st ∈ ini, passes st = true) (c : Expr) (body : List Stmt) (st : Stmt)
     (hels : LastOK st n sp zop zargs)
     (d : Nat) (s s' : CState) (L : List Instr) (F : List Nat)
-    (h : compileStmt (d + 1) (.ifs none c body (some st)) s = .ok ((), s')) (hinv : Inv s L F)
-    (hsz : szS (d + 1) (.ifs none c body (some st)) < 2 ^ 30) (hl : s.loops = []) :
+    (h : compileStmt (d + 1) (.ifs ini c body (some st)) s = .ok ((), s')) (hinv : Inv s L F)
+    (hsz : szS (d + 1) (.ifs ini c body (some st)) < 2 ^ 30) (hl : s.loops = []) :
     TailEnd s s' L F n sp zop zargs := by
   have hjf : isJump opJumpFalsy = true := rfl
   have hjj : isJump opJump = true := rfl
   rw [compile_ifs] at h
   rw [szS_ifs] at hsz
+  have hszi : szOS d ini < 2 ^ 30 := by omega
   simp only [szOS] at hsz
   obtain ⟨_, s0, h0, hA⟩ := bind_ok h
   have e0 : s0 = forkS true s := by
     rw [fork_run] at h0; injection h0 with h0; exact (Prod.mk.inj h0).2.symm
   subst e0
   obtain ⟨_, s0', h0', hB⟩ := bind_ok hA
-  have e0' : s0' = forkS true s := (Prod.mk.inj (pure_ok h0')).2
-  subst e0'
   obtain ⟨_, s1, h1, hC⟩ := bind_ok hB
   obtain ⟨jp1, s2, h2, hD⟩ := bind_ok hC
   obtain ⟨_, s3, h3, hE⟩ := bind_ok hD
@@ -205,11 +223,17 @@ theorem ifelse_tailEnd {n sp zop : Nat} {zargs : List Nat} (c : Expr) (body : Li
   have e8 : s' = unforkS s7 := by
     rw [unfork_run] at hF; injection hF with hF; exact (Prod.mk.inj hF).2.symm
   subst e8
-  clear h hA hB hC hD hE hF h0 h0'
+  clear h hA hB hC hD hE hF h0
   refine TailEnd.forked hinv ?_
-  have hinv0 := hinv.fork
-  have hlf : (forkS true s).loops = [] := hl
-  generalize forkS true s = sf at *
+  obtain ⟨Bi, Fi, bsi, csi, oi, ti⟩ := optS_thru ini hini h0' hinv.fork hszi
+  obtain ⟨ebs, ecs⟩ := oi.nopend hl
+  subst ebs; subst ecs
+  have hli : s0'.loops = [] := by rw [oi.loops]; exact addPend_eq_nil hl
+  refine TailEnd.prepend oi.step (hli.trans hl.symm) ti oi.blk ?_
+  suffices core : ∀ (sf : CState) (L : List Instr) (F : List Nat), Inv sf L F → sf.loops = [] →
+      compileExpr d c sf = .ok ((), s1) → TailEnd sf s7 L F n sp zop zargs from
+    core s0' (L ++ Bi) Fi oi.inv hli h1
+  intro sf L F hinv0 hlf h1
   unfold ifTail at hT
   obtain ⟨jp2, s4, h4, hD⟩ := bind_ok hT
   obtain ⟨p1, s4', h5, hE⟩ := bind_ok hD
@@ -340,24 +364,24 @@ theorem ifelse_tailEnd {n sp zop : Nat} {zargs : List Nat} (c : Expr) (body : Li
 
 /-- `if c { pre…; last; post… } else st` with a `CALL; RETURN` tail call at `last` inside the THEN block
 (whatever the else branch is) -/
-theorem thenelse_tailEnd {n sp : Nat} {zargs : List Nat} (c : Expr) (pre : List Stmt) (last : Stmt) (post : List Stmt)
+theorem thenelse_tailEnd {n sp : Nat} {zargs : List Nat} (ini : Option Stmt)
+    (hini : ∀ st ∈ ini, passes st = true) (c : Expr) (pre : List Stmt) (last : Stmt) (post : List Stmt)
     (st : Stmt) (hpre : ∀ st ∈ pre, passes st = true) (hlast : LastOK last n sp opReturn zargs)
     (d : Nat) (s s' : CState) (L : List Instr) (F : List Nat)
-    (h : compileStmt (d + 1) (.ifs none c (pre ++ last :: post) (some st)) s = .ok ((), s')) (hinv : Inv s L F)
-    (hsz : szS (d + 1) (.ifs none c (pre ++ last :: post) (some st)) < 2 ^ 30) (hl : s.loops = []) :
+    (h : compileStmt (d + 1) (.ifs ini c (pre ++ last :: post) (some st)) s = .ok ((), s')) (hinv : Inv s L F)
+    (hsz : szS (d + 1) (.ifs ini c (pre ++ last :: post) (some st)) < 2 ^ 30) (hl : s.loops = []) :
     TailEnd s s' L F n sp opReturn zargs := by
   have hjf : isJump opJumpFalsy = true := rfl
   have hjj : isJump opJump = true := rfl
   rw [compile_ifs] at h
   rw [szS_ifs] at hsz
+  have hszi : szOS d ini < 2 ^ 30 := by omega
   simp only [szOS] at hsz
   obtain ⟨_, s0, h0, hA⟩ := bind_ok h
   have e0 : s0 = forkS true s := by
     rw [fork_run] at h0; injection h0 with h0; exact (Prod.mk.inj h0).2.symm
   subst e0
   obtain ⟨_, s0', h0', hB⟩ := bind_ok hA
-  have e0' : s0' = forkS true s := (Prod.mk.inj (pure_ok h0')).2
-  subst e0'
   obtain ⟨_, s1, h1, hC⟩ := bind_ok hB
   obtain ⟨jp1, s2, h2, hD⟩ := bind_ok hC
   obtain ⟨_, s3, h3, hE⟩ := bind_ok hD
@@ -365,11 +389,17 @@ theorem thenelse_tailEnd {n sp : Nat} {zargs : List Nat} (c : Expr) (pre : List 
   have e8 : s' = unforkS s7 := by
     rw [unfork_run] at hF; injection hF with hF; exact (Prod.mk.inj hF).2.symm
   subst e8
-  clear h hA hB hC hD hE hF h0 h0'
+  clear h hA hB hC hD hE hF h0
   refine TailEnd.forked hinv ?_
-  have hinv0 := hinv.fork
-  have hlf : (forkS true s).loops = [] := hl
-  generalize forkS true s = sf at *
+  obtain ⟨Bi, Fi, bsi, csi, oi, ti⟩ := optS_thru ini hini h0' hinv.fork hszi
+  obtain ⟨ebs, ecs⟩ := oi.nopend hl
+  subst ebs; subst ecs
+  have hli : s0'.loops = [] := by rw [oi.loops]; exact addPend_eq_nil hl
+  refine TailEnd.prepend oi.step (hli.trans hl.symm) ti oi.blk ?_
+  suffices core : ∀ (sf : CState) (L : List Instr) (F : List Nat), Inv sf L F → sf.loops = [] →
+      compileExpr d c sf = .ok ((), s1) → TailEnd sf s7 L F n sp opReturn zargs from
+    core s0' (L ++ Bi) Fi oi.inv hli h1
+  intro sf L F hinv0 hlf h1
   unfold ifTail at hT
   obtain ⟨jp2, s4, h4, hD⟩ := bind_ok hT
   obtain ⟨p1, s4', h5, hE⟩ := bind_ok hD
@@ -518,14 +548,14 @@ inductive TailS : Stmt → Nat → Nat → Nat → List Nat → Prop
       TailS (.ret (some e)) args.length (if ell then 1 else 0) opReturn [1]
   | expr {e : Expr} {ell : Bool} {f : Expr} {args : List Expr} : TailE e ell f args →
       TailS (.expr e) args.length (if ell then 1 else 0) opPop []
-  | ifThen (c : Expr) (pre : List Stmt) {last : Stmt} (post : List Stmt) {n sp zop : Nat} {zargs : List Nat} :
-      (post = [] ∨ zop = opReturn) → (∀ st ∈ pre, passes st = true) → TailS last n sp zop zargs →
-      TailS (.ifs none c (pre ++ last :: post) none) n sp zop zargs
-  | ifThenElse (c : Expr) (pre : List Stmt) {last : Stmt} (post : List Stmt) (st : Stmt) {n sp : Nat}
-      {zargs : List Nat} : (∀ st ∈ pre, passes st = true) → TailS last n sp opReturn zargs →
-      TailS (.ifs none c (pre ++ last :: post) (some st)) n sp opReturn zargs
-  | ifElse (c : Expr) (body : List Stmt) {st : Stmt} {n sp zop : Nat} {zargs : List Nat} :
-      TailS st n sp zop zargs → TailS (.ifs none c body (some st)) n sp zop zargs
+  | ifThen (ini : Option Stmt) (c : Expr) (pre : List Stmt) {last : Stmt} (post : List Stmt) {n sp zop : Nat}
+      {zargs : List Nat} : (∀ st ∈ ini, passes st = true) → (post = [] ∨ zop = opReturn) → (∀ st ∈ pre, passes st = true) → TailS last n sp zop zargs →
+      TailS (.ifs ini c (pre ++ last :: post) none) n sp zop zargs
+  | ifThenElse (ini : Option Stmt) (c : Expr) (pre : List Stmt) {last : Stmt} (post : List Stmt) (st : Stmt)
+      {n sp : Nat} {zargs : List Nat} : (∀ st ∈ ini, passes st = true) → (∀ st ∈ pre, passes st = true) → TailS last n sp opReturn zargs →
+      TailS (.ifs ini c (pre ++ last :: post) (some st)) n sp opReturn zargs
+  | ifElse (ini : Option Stmt) (c : Expr) (body : List Stmt) {st : Stmt} {n sp zop : Nat} {zargs : List Nat} :
+      (∀ st ∈ ini, passes st = true) → TailS st n sp zop zargs → TailS (.ifs ini c body (some st)) n sp zop zargs
   | block (pre : List Stmt) {last : Stmt} (post : List Stmt) {n sp zop : Nat} {zargs : List Nat} :
       (post = [] ∨ zop = opReturn) → (∀ st ∈ pre, passes st = true) → TailS last n sp zop zargs →
       TailS (.block (pre ++ last :: post)) n sp zop zargs
@@ -535,11 +565,11 @@ theorem tailS_tailEnd {st : Stmt} {n sp zop : Nat} {zargs : List Nat} (h : TailS
   induction h with
   | ret ht => exact fun d' s1 s1' L1 F1 hc hi hs _ => ret_tailEnd ht s1 s1' L1 F1 hc hi hs
   | expr ht => exact fun d' s1 s1' L1 F1 hc hi hs _ => expr_tailEnd ht s1 s1' L1 F1 hc hi hs
-  | ifThen c pre post hpost hpre _ ih =>
-    exact fun d' s1 s1' L1 F1 hc hi hs hl => if_tailEnd c pre _ post hpost hpre ih d' s1 s1' L1 F1 hc hi hs hl
-  | ifThenElse c pre post st hpre _ ih =>
-    exact fun d' s1 s1' L1 F1 hc hi hs hl => thenelse_tailEnd c pre _ post st hpre ih d' s1 s1' L1 F1 hc hi hs hl
-  | ifElse c body _ ih => exact fun d' s1 s1' L1 F1 hc hi hs hl => ifelse_tailEnd c body _ ih d' s1 s1' L1 F1 hc hi hs hl
+  | ifThen ini c pre post hini hpost hpre _ ih =>
+    exact fun d' s1 s1' L1 F1 hc hi hs hl => if_tailEnd ini hini c pre _ post hpost hpre ih d' s1 s1' L1 F1 hc hi hs hl
+  | ifThenElse ini c pre post st hini hpre _ ih =>
+    exact fun d' s1 s1' L1 F1 hc hi hs hl => thenelse_tailEnd ini hini c pre _ post st hpre ih d' s1 s1' L1 F1 hc hi hs hl
+  | ifElse ini c body hini _ ih => exact fun d' s1 s1' L1 F1 hc hi hs hl => ifelse_tailEnd ini hini c body _ ih d' s1 s1' L1 F1 hc hi hs hl
   | @block pre last post n sp zop zargs hpost hpre _ ih =>
     intro d' s1 s1' L1 F1 hc hi hs hl
     rw [compileStmt] at hc
